@@ -201,12 +201,25 @@ def _plain_set(s: list) -> list:
     return [P.plain_mark(m) for m in s]
 
 
-def check_pair(lib, rs, ctx: Ctx, cfg, s_plain: list, m_plain: list) -> list:  # noqa: ANN001
-    """All single-step assertions for (set, mark); returns the reference result of the addition."""
+def check_pair(lib, rs, ctx: Ctx, cfg, s_plain: list, m_plain: list, shared: tuple = (False, False)) -> list:  # noqa: ANN001
+    """All single-step assertions for (set, mark); returns the reference result of the addition.
+    `shared` = (set, mark): build those from the type's shared all-defaults instance where the attributes are the
+    defaults (what schema.mark(name) / type.create() hand out) - equal marks are equal whichever way they were made."""
+    if shared == (False, False):
+        # where a mark with default attributes is involved, the same questions are asked again with the shared
+        # instance on one side and a separately constructed equal mark on the other
+        def is_default(mk_: list) -> bool:
+            sp = rs.marks[mk_[0]].get("attrs") or {}
+            return bool(sp) and all("default" in (v or {}) for v in sp.values()) and mk_[1] == {k: v["default"] for k, v in sp.items()}
+
+        if is_default(m_plain) or any(is_default(x) for x in s_plain):
+            ctx.label("pair:shared-default-instance-variants")
+            check_pair(lib, rs, ctx, cfg, s_plain, m_plain, (True, False))
+            check_pair(lib, rs, ctx, cfg, s_plain, m_plain, (False, True))
     ctx.evaluations += 1
-    s_lib = _lib_set(lib, s_plain)
+    s_lib = [P.build_mark(lib, x, shared[0]) for x in s_plain]
     snapshot = list(s_lib)
-    m = P.build_mark(lib, m_plain)
+    m = P.build_mark(lib, m_plain, shared[1])
     exp = rm.ref_add(rs, m_plain, s_plain)
     got = call("add_to_set", m.add_to_set, s_lib)
     require(got.ok, "add_to_set:raised", f"{got.exc!r}")
